@@ -176,9 +176,7 @@ Section GsProof.
     - rewrite <- IH. unfold outer_sum_sf. cbn [fold_right].
       rewrite (sumn_ext k _ (fun b => fst un a / snd un * (fst un b * y b)
                                       + fold_right (fun un0 acc => fst un0 a * fst un0 b / snd un0 + acc) 0 U * y b)).
-      2:{ intros b _. rewrite !fdiv_mul.
-          generalize (fold_right (fun (un0 : vec * F) acc => fst un0 a * fst un0 b / snd un0 + acc) 0 U).
-          intros T. generalize (/ snd un). intros iv. ring. }
+      2:{ intros b _. rewrite !fdiv_mul. unfold Mat_Core.vec. ring. }
       rewrite sumn_add, sumn_mul_l. reflexivity.
   Qed.
 
@@ -186,9 +184,16 @@ Section GsProof.
     (forall un, In un U -> dot k (fst un) y = 0) ->
     sumn k (fun b => outer_sum_sf U a b * y b) = 0.
   Proof.
-    intros H. rewrite outer_sum_sf_mv. induction U as [|un U IH]; cbn [fold_right]; [reflexivity|].
+    intros H. rewrite outer_sum_sf_mv. unfold Mat_Core.vec in *.
+    induction U as [|un U IH]; cbn [fold_right]; [reflexivity|].
     rewrite (H un) by (left; reflexivity). rewrite IH by (intros x Hx; apply H; right; assumption).
     ring.
+  Qed.
+
+  Lemma nth_skipn' {A} n (l : list A) m dflt : nth m (skipn n l) dflt = nth (n + m) l dflt.
+  Proof.
+    revert l. induction n as [|n IH]; intros l; [reflexivity|].
+    destruct l as [|x l]; cbn [skipn Nat.add nth]; [destruct m; reflexivity|apply IH].
   Qed.
 
   Lemma cols_of_nth k n (Y : mat) j dv : j < n -> nth j (cols_of k n Y) dv = memo_vec k (mcol Y j).
@@ -221,13 +226,12 @@ Section GsProof.
                                  dot k (fst un) (mcol Y j) = 0).
     { intros un j Hin Hj.
       apply (In_nth _ _ (fun _ => 0, 0)) in Hin. destruct Hin as [m [Hm Hnth]].
-      rewrite skipn_length in Hm. rewrite nth_skipn in Hnth.
+      rewrite skipn_length in Hm. rewrite nth_skipn' in Hnth.
       pose proof (gs_later_orth_earlier_input k cols (1 + d + m) j (fun _ => 0, 0) (fun _ => 0) Hnd
                     ltac:(lia) ltac:(unfold cols; rewrite cols_of_length; lia)) as Hz.
-      rewrite Hnth in Hz. unfold cols in Hz.
+      unfold cols in Hz at 2.
       rewrite cols_of_nth in Hz by (unfold hlle_ncols; lia).
-      rewrite dot_memo_r in Hz. exact Hz. }
-    destruct (hlle_Yprod_entries d prev V) as [_ _] eqn:Edummy. clear Edummy.
+      rewrite dot_memo_r in Hz. rewrite <- Hnth. exact Hz. }
     split.
     - rewrite (sumn_ext k _ (fun b => outer_sum_sf (skipn (1 + d) (mgs_sf k [] cols)) a b * mcol Y 0%nat b)).
       + apply outer_sum_kills. intros un Hin. apply Horth; [assumption|lia].
